@@ -35,6 +35,9 @@ class K:
     def meth(self, n):
         return g(n) + 1
 
+sq = lambda x: x * x            # two different functions with the same module and the same qualified name
+cube = lambda x: x ** 3
+
 def ender(kind):
     if kind == 'exit':
         sys.exit(3)
@@ -56,7 +59,8 @@ def mg(n):
 
 
 def canon_timings(t):
-    return {'%s:%s' % (os.path.basename(k[0]) if not k[0].startswith('<') else 'cell', k[2]): [[l - k[1], h] for (l, h, _x) in v] for k, v in t.items()}
+    return {'%s:%s%s' % (os.path.basename(k[0]) if not k[0].startswith('<') else 'cell', k[2], '@%d' % k[1] if k[2] == '<lambda>' else ''):
+            [[l - k[1], h] for (l, h, _x) in v] for k, v in t.items()}
 
 
 def run_case(c, d):
@@ -81,7 +85,7 @@ def run_case(c, d):
     if c['T']:
         line += ' -T %s' % tfile
     kind = c['stmt_kind']
-    stmt = ('res = h(4); res2 = K().meth(2); import lpv_mod; res3 = lpv_mod.mg(3); import lpv_pkg.sub; res4 = lpv_pkg.ptop(1) + lpv_pkg.sub.pinner(2); '
+    stmt = ('res = h(4); res2 = K().meth(2); res5 = sq(3) + cube(2) + cube(1); import lpv_mod; res3 = lpv_mod.mg(3); import lpv_pkg.sub; res4 = lpv_pkg.ptop(1) + lpv_pkg.sub.pinner(2); '
             'ender(%r); after = 1' % kind)
     line += ' ' + stmt
     del PAGES[:]
@@ -124,7 +128,7 @@ def run_case(c, d):
     elif c['T']:
         r['T_text'] = None
     builtins.__dict__.pop('profile', None)
-    for k in ('res', 'res2', 'res3', 'res4', 'after', 'lpv_mod', 'lpv_pkg'):
+    for k in ('res', 'res2', 'res3', 'res4', 'res5', 'after', 'lpv_mod', 'lpv_pkg'):
         ip.user_ns.pop(k, None)
     return r
 
